@@ -150,10 +150,11 @@ class _D(ast.NodeTransformer):
             return node
         t, v = node.targets[0], node.value
         if isinstance(t, ast.Tuple) and isinstance(v, ast.Tuple) and len(t.elts) == len(v.elts) \
-                and all(isinstance(e, (ast.Name, ast.Attribute)) for e in t.elts) and not any(isinstance(e, ast.Starred) for e in v.elts):
+                and all(isinstance(e, (ast.Name, ast.Attribute)) or (isinstance(e, ast.Tuple) and all(isinstance(x, ast.Name) for x in e.elts))
+                        for e in t.elts) and not any(isinstance(e, ast.Starred) for e in v.elts):
             tn = set()
             for e in t.elts:
-                tn |= {ast.unparse(e)}
+                tn |= {ast.unparse(x) for x in (e.elts if isinstance(e, ast.Tuple) else [e])}
             rhs_src = {ast.unparse(x) for x in ast.walk(v) if isinstance(x, (ast.Name, ast.Attribute))}
             if not (tn & rhs_src):
                 out = []
@@ -161,6 +162,16 @@ class _D(ast.NodeTransformer):
                     r = self.visit_Assign(_loc(ast.Assign(targets=[a], value=b, type_comment=None), node))
                     out.extend(r if isinstance(r, list) else [r])
                 return out
+        # lo, hi = sorted((a, b))  ->  lo = min(a, b); hi = max(a, b)
+        if isinstance(t, ast.Tuple) and len(t.elts) == 2 and all(isinstance(e, ast.Name) for e in t.elts) and isinstance(v, ast.Call) \
+                and isinstance(v.func, ast.Name) and v.func.id == "sorted" and len(v.args) == 1 and not v.keywords:
+            pair = v.args[0]
+            if isinstance(pair, ast.Name) and pair.id in getattr(self, "lits", {}):
+                pair = self.lits[pair.id]
+            if isinstance(pair, (ast.Tuple, ast.List)) and len(pair.elts) == 2 and _pure_lit(pair):
+                mk = lambda fn_, tgt_: _loc(ast.Assign(targets=[tgt_], value=ast.Call(func=ast.Name(id=fn_, ctx=ast.Load()), args=[
+                    copy.deepcopy(pair.elts[0]), copy.deepcopy(pair.elts[1])], keywords=[]), type_comment=None), node)   # noqa: E731
+                return [mk("min", t.elts[0]), mk("max", t.elts[1])]
         if isinstance(v, ast.IfExp) and (isinstance(t, ast.Name) or (
                 isinstance(t, ast.Tuple) and all(isinstance(e, ast.Name) for e in t.elts)
                 and not ({e.id for e in t.elts} & {x.id for x in ast.walk(v.test) if isinstance(x, ast.Name)}))):
